@@ -1,6 +1,7 @@
 package main
 
 import (
+	"bytes"
 	storetypes "github.com/cosmos/cosmos-sdk/store/types"
 	"encoding/json"
 	"fmt"
@@ -66,6 +67,8 @@ func cloneEvent(ev *Event) *Event {
 
 func (h *c16Harness) Step(ev *Event, step int) (Result, *Violation) {
 	h.events = append(h.events, ev)
+	debugGasDiff(h.w0, h.w2, ev)
+	debugVolatileDiff(h.w0, h.w2)
 	res := h.w0.Apply(ev)
 	if h.w0.Panicked != "" {
 		return res, nil
@@ -109,6 +112,33 @@ func (h *c16Harness) compare(o *World, what string, step int) *Violation {
 }
 
 func (h *c16Harness) firstStoreDiff(o *World) string {
+	// deliver-state (in-block) difference first
+	if h.w0.InBlock && o.InBlock && h.w0.Panicked == "" && o.Panicked == "" {
+		for _, name := range sortedKeys(storeKeys(h.w0)) {
+			a, b := storeDump(h.w0, name, false), storeDump(o, name, false)
+			i, j := 0, 0
+			for i < len(a) || j < len(b) {
+				switch {
+				case i >= len(a):
+					return fmt.Sprintf("; in-block state differs: store %s key %x only on the other instance", name, b[j].k)
+				case j >= len(b):
+					return fmt.Sprintf("; in-block state differs: store %s key %x only on the primary", name, a[i].k)
+				}
+				c := bytes.Compare(a[i].k, b[j].k)
+				if c < 0 {
+					return fmt.Sprintf("; in-block state differs: store %s key %x only on the primary", name, a[i].k)
+				}
+				if c > 0 {
+					return fmt.Sprintf("; in-block state differs: store %s key %x only on the other instance", name, b[j].k)
+				}
+				if !bytes.Equal(a[i].v, b[j].v) {
+					return fmt.Sprintf("; in-block state differs: store %s key %x value differs", name, a[i].k)
+				}
+				i++
+				j++
+			}
+		}
+	}
 	d0, d1 := dumpStores(h.w0), dumpStores(o)
 	for _, k := range sortedKeys(d0) {
 		if d0[k] != d1[k] {
